@@ -147,6 +147,12 @@ func runC17(p *Prog, r *Report, tier string) {
 	}
 
 	checkInfoElementImmutable(p, r, "R-OWNER.info-element")
+	// strict mode: "the data that follows is rejected" needs the rejected template to invalidate an older one (C04's rule)
+	if dts, first, dels, adds := templateDecoderAnchors(p); dts != nil {
+		checkInvalidate(p, r, dts, first, dels, adds)
+	}
+	// keep mode: "exactly the bytes received" must stay true after the next message is read (C11's framing/alias rules)
+	checkFraming(p, r)
 	// (2) data reader
 	dds := p.Fn("(*pkg/collector.CollectingProcess).decodeDataSet")
 	if dds == nil {
